@@ -245,6 +245,9 @@ class Style:
     def lbr(self):           # filter brackets
         return "[ "
 
+    def sp(self):            # the blank between the tokens of one clause
+        return " "
+
     def rbr(self):
         return " ]"
 
@@ -342,13 +345,13 @@ def pclause(c, style=CANON, depth=0):
         if c.get("neg"):
             s += style.neg()
         if c.get("some"):
-            s += style.kw("some") + " "
+            s += style.kw("some") + style.sp()
         s += pquery(c["q"], style, depth)
-        s += " " + popr(c["op"], c.get("opneg", False), style)
+        s += style.sp() + popr(c["op"], c.get("opneg", False), style)
         if c.get("rhs") is not None:
-            s += " " + prhs(c["rhs"], style, depth)
+            s += style.sp() + prhs(c["rhs"], style, depth)
         if c.get("msg"):
-            s += " <<" + c["msg"] + ">>"
+            s += style.sp() + "<<" + c["msg"] + ">>"
         return s
     if t == "ref":
         s = (style.neg() if c.get("neg") else "") + c["name"]
@@ -373,7 +376,7 @@ def pclause(c, style=CANON, depth=0):
         return s
     if t == "when":
         style.push("when-cond")
-        s = style.kw("when") + " " + pcnf_inline(c["cond"], style, depth)
+        s = style.kw("when") + style.sp() + pcnf_inline(c["cond"], style, depth)
         style.pop()
         style.push("when-body")
         s += " {" + style.eol() + pbody(c.get("lets", []), c["body"], style, depth + 1) + style.indent(depth) + "}"
